@@ -177,6 +177,10 @@ class Scheduler:
                 if cur is not None and any(h[1] == kind and h[0] == cur.name for h in self.holds):
                     self.point(kind, line=(frame.f_code.co_name, frame.f_lineno))
                     return self._line
+                if cur is not None and any(h[1] == "line:*" and h[0] == cur.name for h in self.holds):
+                    # any source line of the library executed by that thread
+                    self.point("line:*", line=(frame.f_code.co_name, frame.f_lineno))
+                    return self._line
             if self.line_preempt and self.choice_i < len(self.choices):
                 self.point("line", line=(frame.f_code.co_name, frame.f_lineno))
         return self._line
